@@ -334,6 +334,15 @@ func runC16(c *Ctx) *Violation {
 		if v := safely(c, "gen", func() { ms, err = mxj.NewMapXmlSeq([]byte(doc)) }); v != nil || err != nil {
 			return nil
 		}
+		if t.Draw(3) == 2 {
+			// the MapSeq after a JSON round trip: every "#seq" is a float64 (the encoder supports that)
+			var cp mxj.Map
+			if v := safely(c, "gen", func() { cp, err = mxj.Map(ms).Copy() }); v != nil || err != nil {
+				return nil
+			}
+			ms = mxj.MapSeq(cp)
+			c.Put("mapseq_through_json", true)
+		}
 		isSeq = true
 		srcDoc = []byte(doc)
 		c.Put("decoded_from", doc)
@@ -524,6 +533,9 @@ func d4(c *Ctx, isSeq bool, m mxj.Map, ms mxj.MapSeq, prefix, indent string, out
 			{"JsonWriterRaw", "Json", func(w *SimWriter) ([]byte, bool, error) { b, e := m.JsonWriterRaw(w); return b, true, e }},
 			{"JsonWriterRaw(safe)", "Json(safe)", func(w *SimWriter) ([]byte, bool, error) { b, e := m.JsonWriterRaw(w, true); return b, true, e }},
 			{"JsonIndentWriter", "JsonIndent", func(w *SimWriter) ([]byte, bool, error) { return nil, false, m.JsonIndentWriter(w, prefix, indent) }},
+			{"JsonIndentWriter(safe)", "JsonIndent(safe)", func(w *SimWriter) ([]byte, bool, error) {
+				return nil, false, m.JsonIndentWriter(w, prefix, indent, true)
+			}},
 			{"JsonIndentWriterRaw", "JsonIndent", func(w *SimWriter) ([]byte, bool, error) {
 				b, e := m.JsonIndentWriterRaw(w, prefix, indent)
 				return b, true, e
